@@ -1,36 +1,45 @@
 import Driver.Disk
+import Driver.Reactor
 /-! zdriver: `zdriver <domain> [--base]` reads one JSON object per line, prints one result line each. -/
 open Lean
 
-abbrev Handler := Bool → Json → Except String String
+/-- a domain is a state type packed with its step function -/
+structure Domain where
+  σ : Type
+  init : σ
+  step : Bool → σ → Json → Except String (σ × String)
 
-def handlers : List (String × Handler) := [
-  ("disk", Driver.Disk.step)
+def stateless (f : Bool → Json → Except String String) : Domain :=
+  { σ := Unit, init := (), step := fun b _ j => (f b j).map (fun s => ((), s)) }
+
+def domains : List (String × Domain) := [
+  ("disk", stateless Driver.Disk.step),
+  ("reactor", { σ := Zeno.Model.Reactor.R, init := Zeno.Model.Reactor.R.init, step := Driver.Reactor.step })
 ]
 
-partial def loop (h : IO.FS.Stream) (out : IO.FS.Stream) (f : Json → Except String String) : IO Unit := do
+partial def loop (d : Domain) (base : Bool) (h out : IO.FS.Stream) (st : d.σ) : IO Unit := do
   let line ← h.getLine
   if line.isEmpty then return ()
   let l := line.trimAsciiEnd.toString
   if l.isEmpty then
     out.putStrLn ""
+    loop d base h out st
   else
     match Json.parse l with
-    | .error e => out.putStrLn s!"driver-error parse {e}"
-    | .ok j => match f j with
-      | .ok s => out.putStrLn s
-      | .error e => out.putStrLn s!"driver-error {e}"
-  loop h out f
+    | .error e => out.putStrLn s!"driver-error parse {e}"; loop d base h out st
+    | .ok j => match d.step base st j with
+      | .ok (st', s) => out.putStrLn s; loop d base h out st'
+      | .error e => out.putStrLn s!"driver-error {e}"; loop d base h out st
 
 def main (args : List String) : IO UInt32 := do
   match args with
   | dom :: rest =>
     let base := rest.contains "--base"
-    match handlers.lookup dom with
+    match domains.lookup dom with
     | none => IO.eprintln s!"unknown domain {dom}"; return 2
-    | some f =>
+    | some d =>
       let out ← IO.getStdout
-      loop (← IO.getStdin) out (f base)
+      loop d base (← IO.getStdin) out d.init
       out.flush
       return 0
   | [] => IO.eprintln "usage: zdriver <domain> [--base]"; return 2
